@@ -297,7 +297,24 @@ pub fn native(cfg: &cgv_core::fw::RunCfg, extra: &mut cgv_core::fw::Extra) {
     let mut kinds = [0u64; 4];
     for i in 0..n {
         let mut rng = Rng::for_case(cfg.seed, "c15_native", i);
-        let a = Vector3::new(rng.uniform(-1.0, 1.0), rng.uniform(-1.0, 1.0), rng.uniform(-1.0, 1.0));
+        // one case in three: a direction hugging a coordinate axis (tilted by 1e-6 .. 3e-2 in the
+        // other two components), where a hard-wired "perpendicular" axis is tempting and wrong
+        let a = if rng.chance(1, 3) {
+            let k = rng.below(3) as usize;
+            let mut c = [0.0f64; 3];
+            for (j, x) in c.iter_mut().enumerate() {
+                *x = if j == k {
+                    if rng.bool() { 1.0 } else { -1.0 }
+                } else if rng.chance(1, 5) {
+                    0.0
+                } else {
+                    10f64.powf(rng.uniform(-6.0, -1.5)) * if rng.bool() { 1.0 } else { -1.0 }
+                };
+            }
+            Vector3::new(c[0], c[1], c[2])
+        } else {
+            Vector3::new(rng.uniform(-1.0, 1.0), rng.uniform(-1.0, 1.0), rng.uniform(-1.0, 1.0))
+        };
         if a.magnitude2() < 0.01 {
             continue;
         }
@@ -372,7 +389,8 @@ pub fn native(cfg: &cgv_core::fw::RunCfg, extra: &mut cgv_core::fw::Extra) {
         }
         // 2-D: exactly opposite and exactly equal vectors in general position
         {
-            let a2 = cgmath::Vector2::new(a.x, a.y).normalize();
+            // (the 3-D direction may hug the z axis: its xy part is then no direction at all)
+            let a2 = if a.x * a.x + a.y * a.y < 1e-3 { cgmath::Vector2::new(0.6, 0.8) } else { cgmath::Vector2::new(a.x, a.y).normalize() };
             for (b2, what) in [(-a2, "opposite"), (a2, "equal")] {
                 let r = cgv_core::fw::catch(|| {
                     let r: Basis2<f64> = Rotation::between_vectors(a2, b2);
@@ -390,7 +408,7 @@ pub fn native(cfg: &cgv_core::fw::RunCfg, extra: &mut cgv_core::fw::Extra) {
         }
         // 2-D accuracy at every separation: r(a) = b to 1e-13 (a stable formula is good to ~1e-16)
         {
-            let a2 = cgmath::Vector2::new(a.x, a.y).normalize();
+            let a2 = if a.x * a.x + a.y * a.y < 1e-3 { cgmath::Vector2::new(0.8, -0.6) } else { cgmath::Vector2::new(a.x, a.y).normalize() };
             let th = 10f64.powf(rng.uniform(-9.0, 0.49)) * if rng.bool() { 1.0 } else { -1.0 };
             let th = if rng.chance(1, 4) { th.signum() * (std::f64::consts::PI - th.abs().min(3.0)) } else { th };
             let b2 = cgmath::Vector2::new(th.cos() * a2.x - th.sin() * a2.y, th.sin() * a2.x + th.cos() * a2.y);
